@@ -1,10 +1,11 @@
 SPECIFICATION Spec
 CONSTANTS
   NB = 4
-  OpKinds = {"add", "addu", "rem", "sync"}
+  OpKinds = {"add", "addu", "addx", "rem", "sync"}
   MaxLen = 3
   MaxLevel = 6
   Inits = {"two", "deep", "wide"}
   Patterns = {"rand"}
+  Keeps = {TRUE, FALSE}
   Emit = "state"
 INVARIANTS EmitCase
